@@ -133,6 +133,7 @@ def run(ctx):
         same = len(set(forms)) == 1
         c.ob("R5", same, preds[1], "active-predicates-agree", "matches(), stateIn and PureSnapshot.matches() use one predicate" if same else
              f"the 'state is active' predicates differ: {forms}", preds[1].node)
+    shared.eligible_bucket_rules(ctx, "R11", "guard")
     # ---- R10 stateIn is true exactly when the named state is active ---------------------------------
     si = p.method("BaseInterpreter", "_is_state_in")
     rets = [x for x in own_nodes(si.node) if isinstance(x, ast.Return)]
